@@ -255,6 +255,53 @@ fn one_case(ctx: &Ctx, case: u64, l: &mut Local) {
             (Expect::NotAsserted, o) => l.count(&format!("not-asserted.{}.{}", name, o.class())),
         }
     }
+    // ---- a temporal claim written TWICE in the signed payload text (RFC 7519 §4: reject, or use the
+    // lexically last one): whenever the last one is outside the window the token must be refused
+    {
+        let mut p = base.clone();
+        p.remove("exp");
+        p.remove("nbf");
+        let inner = Value::Object(p).to_string();
+        let inner = &inner[1..inner.len() - 1];
+        let past = t0 - 3600 - r.below(YEAR);
+        let fut = t0 + 7200 + r.below(YEAR);
+        for (name, first, last, which, assert) in [
+            ("exp", json!(fut), json!(past), "exp", true),
+            ("exp", json!(past), json!(past - 5), "exp", true),
+            ("exp", json!(past), json!(fut), "exp", false),
+            ("exp", json!(fut), json!("never"), "exp", true),
+            ("nbf", json!(t0 - 7200), json!(fut), "nbf", true),
+        ] {
+            let mut text = format!("{{{}:{first},{inner},{}:{last}", json!(name), json!(name));
+            if name == "nbf" {
+                text.push_str(&format!(",\"exp\":{}", fut + 86_400));
+            }
+            text.push('}');
+            if serde_json::from_str::<Value>(&text).is_err() {
+                continue;
+            }
+            let jwt = api::sign_text(&json!({"alg": cfg.alg.name()}).to_string(), &text, cfg.alg.jwt(), &crate::keys::issuer_enc(cfg.alg, 0));
+            let sd = Parts { jwt, disclosures: issued.parts.disclosures.clone(), kb: None };
+            let enc = match sd.encode(fmt, 0) {
+                Some(x) => x,
+                None => continue,
+            };
+            let v = api::verify(&enc, &resolver, None, fmt);
+            l.evals += 1;
+            match (&v.out, assert) {
+                (pn @ Outcome::Panic(..), _) => l.violate(Violation { subcheck: "panic".into(), class: format!("{name} written twice"), observed: pn.panic_signature().unwrap(), case, detail: json!({"payload_text": text}) }),
+                (Outcome::Ok(_), true) => l.violate(Violation {
+                    subcheck: format!("accepted-outside-window-{which}"),
+                    class: format!("{name} written twice in the payload, the last one outside the window"),
+                    observed: "Ok".into(),
+                    case,
+                    detail: json!({"config": cfg.describe(), "payload_text": text, "t": t0}),
+                }),
+                (Outcome::Err(_), true) => l.count(&format!("must-reject.{which}.rejected")),
+                (o, false) => l.count(&format!("not-asserted.{name}-twice-last-inside.{}", o.class())),
+            }
+        }
+    }
     // ---- the same window for RSA / P-384 issuers (signing oracle only; every 8th case)
     if case % 8 == 0 {
         for an in crate::keys::EXTRA_ALGS {
